@@ -110,6 +110,36 @@ def family(ctx, top, kinds=("coroutine", "closure"), include_top=False):
     return ([top] + out) if include_top else out
 
 
+def value_terms(f, T, t, depth=3):
+    """The term t plus, for every multiply-assigned local it mentions, the terms of that local's non-error
+    definitions (Ok(..)/Some(..)/plain values; not `?` propagation or Err(..)) - transitively. Lets a rule look through
+    the return place of an inlined helper."""
+    out = [t]
+    seen = set()
+    frontier = [t]
+    for _ in range(depth):
+        nxt = []
+        for u in frontier:
+            for x in subterms(u):
+                if x[0] == "var" and x[1] not in seen:
+                    seen.add(x[1])
+                    for d in T.defs.get(x[1], ()):
+                        if d[0] == "s":
+                            dt = T.rvalue(f.blocks[d[1]]["s"][d[2]]["r"])
+                        elif d[0] == "c" and f.blocks[d[1]]["t"]["k"] == "call":
+                            dt = T.call_term(f.blocks[d[1]]["t"])
+                        else:
+                            continue
+                        if dt[0] == "call" and dt[1] == "std::ops::FromResidual::from_residual":
+                            continue
+                        if dt[0] == "agg" and dt[2] in ("Err", "None", "Pending"):
+                            continue
+                        out.append(dt)
+                        nxt.append(dt)
+        frontier = nxt
+    return out
+
+
 def ret_truths(ctx, W, g, val):
     """Truth values (True / False / None = undecided) a bool-returning body may return under the valuation."""
     from engine import query as Q
